@@ -169,16 +169,20 @@ func VerifC07Multipart() {
 		if err = rs.StartRestore(c12Ctx, meta); err != nil {
 			return err
 		}
-		for i := range digests {
-			if i == abortAfter {
+		for j := range digests {
+			if j == abortAfter {
 				_ = rs.AbortRestore(c12Ctx)
 				return d.AbortMultipartInsert()
+			}
+			i := j
+			if symx.Cfg("reverse", 0) == 1 {
+				i = len(digests) - 1 - j // chunks may arrive in any order
 			}
 			done, err := rs.RestoreChunk(c12Ctx, uint64(i), bytes.NewReader(wf.sinks[i].buf.Bytes()))
 			if err != nil {
 				return err
 			}
-			symx.Assert(done == (i == len(digests)-1), "done reported at the wrong time")
+			symx.Assert(done == (j == len(digests)-1), "done reported at the wrong time")
 		}
 		if abortAfter >= len(digests) {
 			_ = rs.AbortRestore(c12Ctx)
@@ -187,7 +191,10 @@ func VerifC07Multipart() {
 		return d.Finalize([]node.Root{root})
 	}
 
-	crashAt := 1 + symx.Choose("crashBeforeWrite", symx.Cfg("writes", 6))
+	crashAt := 0 // cfg nocrash=1: the uninterrupted restore into a real node database (C12 on the real back ends)
+	if symx.Cfg("nocrash", 0) != 1 {
+		crashAt = 1 + symx.Choose("crashBeforeWrite", symx.Cfg("writes", 6))
+	}
 	c07Arm(crashAt)
 	crashed, opErr := c07Run(func() error { return restore(db, abortAfter) })
 	if !crashed {
